@@ -176,6 +176,7 @@ func (r *remoteHTTPProxyCache) Get(ctx context.Context, kind cache.EntryKind, ha
 
 	if rsp.StatusCode == http.StatusNotFound {
 		cacheMisses.Inc()
+		_ = rsp.Body.Close()
 		return nil, -1, nil
 	}
 
@@ -190,6 +191,7 @@ func (r *remoteHTTPProxyCache) Get(ctx context.Context, kind cache.EntryKind, ha
 		}
 
 		cacheMisses.Inc()
+		_ = rsp.Body.Close()
 		return nil, -1, &cache.Error{
 			Code: rsp.StatusCode,
 			Text: errorText,
@@ -198,19 +200,25 @@ func (r *remoteHTTPProxyCache) Get(ctx context.Context, kind cache.EntryKind, ha
 
 	if kind == cache.CAS && r.v2mode {
 		cacheHits.Inc()
-		return casblob.ExtractLogicalSize(rsp.Body)
+		rc, size, err := casblob.ExtractLogicalSize(rsp.Body)
+		if err != nil {
+			_ = rsp.Body.Close()
+		}
+		return rc, size, err
 	}
 
 	sizeBytesStr := rsp.Header.Get("Content-Length")
 	if sizeBytesStr == "" {
 		err = errors.New("missing Content-Length header")
 		cacheMisses.Inc()
+		_ = rsp.Body.Close()
 		return nil, -1, err
 	}
 
 	sizeBytesInt, err := strconv.Atoi(sizeBytesStr)
 	if err != nil {
 		cacheMisses.Inc()
+		_ = rsp.Body.Close()
 		return nil, -1, err
 	}
 	sizeBytes := int64(sizeBytesInt)
